@@ -1,5 +1,6 @@
 """pyvc.harness -- symbolic evaluator of the harness language (see pyvc.api)."""
 from __future__ import annotations
+import os
 from .core import forall
 from .core import (z3, PyVal, A, C, VABSENT, VNONE, StringSort, IntSort, BoolSort, RealSort, SeqPV, mk_bool, mk_int, mk_float,
                    mk_str, mk_bytes, mk_list, mk_dict, simp, is_tag, head_tag)
@@ -126,6 +127,11 @@ def install(cfg):
         ctx = interp.ctx
         out = HObj(api.Outcome)
         w0 = len(ctx.writes)
+        # objects that exist when the call starts are shared state from the call's point of view, except the
+        # containers handed over as this call's own arguments (header, claims, JSON serialization object)
+        from .values import _oid
+        out.attrs["mark"] = next(_oid)
+        out.attrs["own_args"] = [a for a in list(args) + list(kwargs.values()) if isinstance(a, (HDict, HList, HSet))]
         ctx.in_call_under_proof += 1
         try:
             v = interp.call(fn, list(args), kwargs)
@@ -133,6 +139,8 @@ def install(cfg):
         except PyRaise as pr:
             out.attrs.update(returned=False, value=None, exc=pr.exc)
             ctx.ghost["last_exc"] = "%s at %s" % (getattr(pr.exc.cls, "__name__", "?"), " > ".join(pr.exc.attrs.get("__site__", [])[-3:]))
+            if os.environ.get("PYVC_ESCAPES"):
+                print("ESCAPE " + ctx.ghost["last_exc"] + " " + repr(pr.exc.attrs.get("args"))[:80], flush=True)
         finally:
             ctx.in_call_under_proof -= 1
         out.attrs["writes"] = list(ctx.writes[w0:])
@@ -477,9 +485,13 @@ def install(cfg):
         return boolval(interp, z3.InRe(interp.text_term(b), S.ASCII_RE))
 
     @cfg.stub(api.shared_writes)
-    def shared_writes(interp, out):
+    def shared_writes(interp, out, call_relative=False):
         res = []
+        mark = out.attrs.get("mark", 0)
+        own = out.attrs.get("own_args", [])
         for (target, what, value, pre, stack) in out.attrs.get("writes", []):
+            if call_relative and not pre and getattr(target, "oid", mark) < mark and not any(target is a for a in own):
+                pre = True
             if not pre:
                 continue
             if isinstance(target, (HDict, HList, HSet)) and target.label and str(target.label).startswith("arg:"):
